@@ -12,7 +12,7 @@ RULE = (
     "state changes zero / positive / negative, state vectors shorter and longer than the state model; observed: float bits of "
     "traversal_cost, cost_estimate (also via SearchInstance::estimate_traversal_cost), access_cost and edge_cost for the forward and the "
     "reverse edge pair, and (access_cost, traversal_cost, total_cost()) of EdgeTraversal::forward_traversal / reverse_traversal on a "
-    "SearchInstance. ~650 deterministic boundary cases first (every rate shape x state change x aggregation x weight, exact-zero and "
+    "SearchInstance. 502 deterministic boundary cases first (every rate shape x state change x aggregation x weight, exact-zero and "
     "cancelling totals, totals below MIN_COST, surcharge hit/miss x weight x aggregation, 1-8 features with defaults, zero-sum weights, "
     "short vectors, Mul sign patterns, the D-TURNFEE witness, the float-absorption inputs), then random. I = implementation bits, M = Gallina model in binary64 "
     "(bit-exact), S = specification in exact rationals judging the implementation's output (finite, > 0 / >= 0, Err exactly when a "
@@ -83,7 +83,7 @@ def run(chk):
                       for x in probe.get("k_absorb", [])],
             "serde_facts": {k: v for k, v in probe.items() if k != "k_absorb"}}
 
-    n = 2000 if quick else 30000
+    n = 1500 if quick else 24000
     r = vf.run_stream(binp, "cost", n, chk.seed, os.path.join(chk.outdir, "cost"), extra=extra, replay=chk.replay)
     chk.add_stream(r, RULE)
     vf.compare(chk, r, classify=classify, binpath=binp, extra=extra)
